@@ -13,7 +13,7 @@ def main(argv=None):
     run = report.Run("C11", "model_checking")
     env.load_pygom()
     quick = run.tier == "quick"
-    seeds = ["DRAIN", "CAPPED", "RANGE"] if quick else ["DRAIN", "CAPPED", "RANGE", "BD", "SIR", "ONE"]
+    seeds = ["DRAIN", "CAPPED", "RANGE", "HYBRID", "CAPPEDBIG"] if quick else ["DRAIN", "CAPPED", "RANGE", "HYBRID", "CAPPEDBIG", "BD", "SIR", "ONE"]
     dbound = 1 if quick else 2
     defs, ngen = fam.gather_defs(seeds, dbound)
     seed_defs, _ = fam.gather_defs(seeds, 0)
